@@ -146,7 +146,9 @@ def createClientMsg (s : State) (auth : Addr) (q : Chain) (ctype : String) (h t 
     | none =>
       -- the Tendermint client's `Initialize` refuses a consensus state of another type
       if ctype == "007-tendermint" && !consSame then (s, .err (.app "tibc-client/8"))
-      else (setClient s q (Client.init ctype h t period sn), .ok)
+      -- the BSC / ETH clients' `Initialize` store a consensus state of another type as given; it
+      -- cannot be read back (Status Unknown)
+      else (setClient s q { Client.init ctype h t period sn with cons := fun h' => if h' = h ∧ consSame then some sn else none }, .ok)
 
 /-- `msgServer.UpgradeClient` -/
 def upgradeClientMsg (s : State) (auth : Addr) (q : Chain) (ctype : String) (h t period : Nat) (csValid : Bool)
